@@ -467,6 +467,9 @@ func fatalClass(out string) string {
 	lines := strings.Split(strings.TrimRight(out, "\n"), "\n")
 	for i := len(lines) - 1; i >= 0; i-- {
 		l := strings.TrimSpace(lines[i])
+		if strings.Contains(l, "+0x") || strings.Contains(l, ".go:") || strings.HasPrefix(l, "goroutine ") || strings.HasPrefix(l, "created by ") || strings.HasSuffix(l, ")") && strings.Contains(l, "(") && strings.Contains(l, ".") {
+			continue // a stack dump is not a message
+		}
 		if l == "" || strings.HasPrefix(l, "exit status") || strings.HasPrefix(l, "FAIL") || strings.HasPrefix(l, "=== ") || strings.HasPrefix(l, "--- ") || strings.HasPrefix(l, "...") {
 			continue
 		}
